@@ -239,6 +239,15 @@ fn c02(tier: &str, thorough: bool) -> i32 {
             &EnumCfg { version: v, seed: "fresh".into(), ops: data_ops(&a), depth: 3, oracles: o, extra_paths: vec![], one_reopen: true, extend_refused: false },
         );
     }
+    // names at the 31-unit limit (the 64-byte name field is exactly full)
+    for v in [3u16, 4] {
+        let n31 = format!("/{}", "n".repeat(31));
+        let e31 = format!("/{}", "\u{e9}".repeat(31));
+        let s31 = format!("/{}{}", "x".repeat(29), "\u{1f600}");
+        let n30 = format!("/{}", "m".repeat(30));
+        let ops = vec![Op::Rewrite(n31.clone(), 70), Op::CreateStorage(e31.clone()), Op::CreateStream(s31.clone()), Op::Rewrite(n30.clone(), 5000), Op::RemoveStream(n31), Op::RemoveStorage(e31), Op::RemoveStream(s31), Op::CreateStream(format!("/{}", "y".repeat(32)))];
+        add_enum(&ctx, &mut tot, "31-unit names", &EnumCfg { version: v, seed: "fresh".into(), ops, depth: 3, oracles: o, extra_paths: vec![], one_reopen: false, extend_refused: false });
+    }
     // growth seeds: the histories that add directory / FAT / MiniFAT sectors
     for (v, seed) in growth_seeds(thorough) {
         let big = seed.starts_with("b7");
@@ -377,6 +386,13 @@ fn c10(tier: &str, thorough: bool) -> i32 {
         ops.push(Op::CreateStream("/s/x".into()));
         add_enum(&ctx, &mut tot, "data + refused extended", &EnumCfg { version: v, seed: "fresh".into(), ops, depth: 3, oracles: o, extra_paths: vec![], one_reopen: false, extend_refused: true });
     }
+    // refused calls on files with tolerated deviations (entries that permissive open normalises in memory)
+    for v in [3u16, 4] {
+        let st = crate::e2::refusals_on_deviated(&ctx, v);
+        ctx.note(format!("v{} refused calls on deviated files: files={} refused calls checked={}", v, st.files, st.steps));
+        tot.0 += st.files;
+        tot.1 += st.steps;
+    }
     // refused (out-of-range) seeks on a handle, after every call sequence: bytes, entry length and position unchanged
     let st = crate::e3::explore(&ctx, if thorough { &[3, 4] } else { &[3] }, if thorough { &[0, 1500, 1 << 20] } else { &[1500, 1 << 20] }, if thorough { &[0, 1025, 5000] } else { &[0, 5000] }, 3, false);
     ctx.note(format!("handle sequences with refused seeks: configs={} sequences={} calls={}", st.configs, st.sequences, st.calls));
@@ -402,6 +418,12 @@ fn c15(tier: &str, thorough: bool) -> i32 {
             cyc.push(vec![Op::Rewrite("/s".into(), n2), Op::Rewrite("/s".into(), n1)]);
             cyc.push(vec![Op::Append("/s".into(), n2), Op::SetLen("/s".into(), n1 as u64)]);
             cyc.push(vec![Op::SetLen("/s".into(), n2 as u64), Op::Rewrite("/s".into(), n1)]);
+        }
+        // overwrite in place through open_stream (no truncation first), across the cutoff in both directions
+        for &(n1, n2) in &[(4000usize, 5000usize), (100, 4096), (64, 4100), (1, 8000)] {
+            cyc.push(vec![Op::Rewrite("/c".into(), n1), Op::Patch("/c".into(), 0, n2), Op::RemoveStream("/c".into())]);
+            cyc.push(vec![Op::Patch("/s".into(), 0, n2), Op::Rewrite("/s".into(), n1)]);
+            cyc.push(vec![Op::Patch("/s".into(), 10, n2), Op::SetLen("/s".into(), n1 as u64), Op::Rewrite("/s".into(), n1)]);
         }
         cyc.push(vec![Op::CreateStorage("/q".into()), Op::RemoveStorage("/q".into())]);
         cyc.push(vec![Op::CreateStorageAll("/p/q/r".into()), Op::RemoveStorageAll("/p".into())]);
@@ -651,7 +673,8 @@ fn c07(tier: &str, thorough: bool) -> i32 {
     for v in [3u16, 4] {
         let runs: Vec<(&[&str], usize, bool)> = if thorough { if v == 3 { vec![(&["a", "b", "c", "d"], 3, false), (&["a", "b", "c"], 3, true)] } else { vec![(&["a", "b", "c"], 3, true)] } } else { vec![(&["a", "b", "c"], 3, false)] };
         for (names, depth, rich) in runs {
-            let st = crate::e1h::explore(ctx, v, names, depth, rich, 2);
+            // quick: pairs of handles in V3 only (directory slots 4 per sector make V3 the richer case)
+            let st = crate::e1h::explore(ctx, v, names, depth, rich, if thorough || v == 3 { 2 } else { 1 });
             ctx.note(format!("v{} names={:?} depth={} rich={}: start_states={} (state,handles) choices={} sequences={} actions={}", v, names, depth, rich, st.start_states, st.handle_choices, st.sequences, st.actions));
             seqs += st.sequences;
             acts += st.actions;
